@@ -205,6 +205,28 @@ Ltac ro_subst E :=
           | idtac ]
   end.
 
+(* error branch of a primitive that cannot fail *)
+Ltac prim_noerr E :=
+  lazymatch type of E with
+  | set_node _ _ _ = Val (ER _, _) => discriminate E
+  | alloc _ _ = Val (ER _, _) => discriminate E
+  | set_model _ _ _ = Val (ER _, _) => discriminate E
+  | wput _ _ = Val (ER _, _) => discriminate E
+  | wget _ = Val (ER _, _) => discriminate E
+  | get_node _ _ = Val (ER _, _) => let n := fresh in apply get_node_inv in E as (n & _ & E & _); discriminate E
+  | get_model _ _ = Val (ER _, _) => let n := fresh in apply get_model_inv in E as (n & _ & E & _); discriminate E
+  | get_file _ _ = Val (ER _, _) => let n := fresh in apply get_file_inv in E as (n & _ & E & _); discriminate E
+  | wl _ _ = Val (ER _, _) => let n := fresh in apply wl_inv in E as (n & _ & E & _); discriminate E
+  | wlift _ _ = Val (ER _, _) => let n := fresh in apply wlift_inv in E as (n & _ & E & _); discriminate E
+  | wtry _ _ = Val (ER _, _) => let n := fresh in apply wtry_inv in E as (n & _ & E); discriminate E
+  | modify_node _ _ _ = Val (ER _, _) =>
+    let n := fresh in unfold modify_node in E; apply wbind_inv in E as [(n & ? & ? & E) | (n & E & _)];
+    [discriminate E | apply get_node_inv in E as (? & _ & E & _); discriminate E]
+  | modify_model _ _ _ = Val (ER _, _) =>
+    let n := fresh in unfold modify_model in E; apply wbind_inv in E as [(n & ? & ? & E) | (n & E & _)];
+    [discriminate E | apply get_model_inv in E as (? & _ & E & _); discriminate E]
+  end.
+
 Ltac wstep H :=
   lazymatch type of H with
   | wbind ?m ?k ?w = Val (?r, ?w') =>
@@ -213,6 +235,7 @@ Ltac wstep H :=
     apply wbind_inv in H as [(a & w1 & E & H) | (e & E & Hr)];
     [ try ro_subst E
     | first [ discriminate Hr
+            | prim_noerr E
             | first [ subst r | injection Hr as Hr; try subst | idtac ]; try ro_subst E ] ]
   end.
 
@@ -225,6 +248,7 @@ Ltac wstep_as H a E :=
     apply wbind_inv in H as [(a & w1 & E & H) | (e & E & Hr)];
     [ try ro_subst E
     | first [ discriminate Hr
+            | prim_noerr E
             | first [ subst r | injection Hr as Hr; try subst | idtac ]; try ro_subst E ] ]
   end.
 Tactic Notation "wstepn" hyp(H) ident(a) ident(E) := wstep_as H a E.
@@ -278,8 +302,7 @@ Lemma modify_node_inv i f w r w' :
             w' = mkWorld (upd (w_nodes w) i (f n)) (w_next w) (w_files w) (w_models w).
 Proof.
   unfold modify_node. intros H. wstep H.
-  - winv E. apply set_node_inv in H as (-> & ->). eauto.
-  - apply get_node_inv in E as (n & _ & [=] & _).
+  winv E. apply set_node_inv in H as (-> & ->). eauto.
 Qed.
 
 Definition wset (w : world) (i : id) (n : node) : world :=
@@ -308,8 +331,7 @@ Lemma modify_model_inv m f w r w' :
             w' = wmodels w (list_set (w_models w) (N.to_nat m) (f x)).
 Proof.
   unfold modify_model. intros H. wstep H.
-  - winv E. apply set_model_inv in H as (-> & ->). eauto.
-  - apply get_model_inv in E as (n & _ & [=] & _).
+  winv E. apply set_model_inv in H as (-> & ->). eauto.
 Qed.
 
 (* ---------- lists ---------- *)
